@@ -59,6 +59,7 @@ TTotalsNum ==
      /\ Chk("log_prior_is_sum_over_parameter_variables",
             Ev.user_lpr \/ Close(Ev.log_prior, SumOver(L, 1, "prior")))
      /\ Chk("user_supplied_totals_forwarded_unchanged",
+            /\ Ev.user_forward_exact      \* same shape, same entries
             /\ (Ev.user_lp => FSame(Ev.log_prob, Ev.user_lp_value))
             /\ (Ev.user_ll => FSame(Ev.log_lik, Ev.user_ll_value))
             /\ (Ev.user_lpr => FSame(Ev.log_prior, Ev.user_lpr_value)))
